@@ -1,4 +1,7 @@
-import AlgoVerif.Proofs.C01Bst
+import AlgoVerif.Proofs.C01Avl
+import AlgoVerif.Proofs.C01RbTop
+import AlgoVerif.Proofs.C01Inst
+import AlgoVerif.Generated.C01
 /-!
 # C01 — ordered symbol tables behave as a sorted map on every operation history
 
@@ -16,3 +19,43 @@ theorem C01_bst {K V : Type} (cmp : K → K → Int) (h : LawfulCmp cmp) (eqVal 
     ∃ s outs, run .bst cmp eqVal ops = .ok (s, outs) ∧ Spec.accepts cmp eqVal ([], []) ops outs := by
   obtain ⟨s, outs, e, -, acc⟩ := runFrom_ok (bst_kindOK h) h eqVal ops (.nil, .nil) ⟨inv_nil, inv_nil⟩
   exact ⟨s, outs, e, acc⟩
+
+theorem C01_avl {K V : Type} (cmp : K → K → Int) (h : LawfulCmp cmp) (eqVal : V → V → Bool)
+    (ops : List (Op K V)) :
+    ∃ s outs, run .avl cmp eqVal ops = .ok (s, outs) ∧ Spec.accepts cmp eqVal ([], []) ops outs := by
+  obtain ⟨s, outs, e, -, acc⟩ := runFrom_ok (avl_kindOK h) h eqVal ops (.nil, .nil) ⟨inv_nil, inv_nil⟩
+  exact ⟨s, outs, e, acc⟩
+
+theorem C01_rb {K V : Type} (cmp : K → K → Int) (h : LawfulCmp cmp) (eqVal : V → V → Bool)
+    (ops : List (Op K V)) :
+    ∃ s outs, run .rb cmp eqVal ops = .ok (s, outs) ∧ Spec.accepts cmp eqVal ([], []) ops outs := by
+  obtain ⟨s, outs, e, -, acc⟩ := runFrom_ok (rb_kindOK h) h eqVal ops (.nil, .nil)
+    ⟨⟨inv_nil, llrb_nil⟩, ⟨inv_nil, llrb_nil⟩⟩
+  exact ⟨s, outs, e, acc⟩
+
+/-- The Model has the query half of the three tables once.  This is the regenerated fact that justifies it:
+on the current /repo the 29 query functions of `bst.go`, `avl.go` and `red_black.go` are identical after
+renaming (`bin/pre-C01` rewrites `Generated/C01.lean` on every check). -/
+theorem C01_queries_shared : AlgoVerif.Generated.C01.allShared = true := by decide
+
+/-! ### non-vacuity -/
+
+/-- the two comparators of the harness satisfy the law the theorems assume -/
+example : LawfulCmp cmpAsc := lawful_cmpAsc
+example : LawfulCmp cmpDesc := lawful_cmpDesc
+
+/-- a history with a double rotation (AVL: 1, 3, 2) reaching a 7-key tree, then a two-child `Delete`,
+`DeleteMin`, `DeleteMax`, a query on an absent key and a `SelectMatch`, runs to completion -/
+example : okAnd (run .avl cmpAsc eqInt
+      [.put 1 1, .put 3 3, .put 2 2, .put 7 7, .put 6 6, .put 5 5, .put 4 4, .size, .delete 4, .deleteMin,
+        .deleteMax, .floor 4, .selectMatch (fun k _ => k % 2 == 0), .swap, .all])
+    (fun r => r.1.1.sz == 2 && r.1.2.sz == 4) = true := by decide
+
+example : okAnd (run .rb cmpDesc eqInt
+      [.put 1 1, .put 3 3, .put 2 2, .put 7 7, .put 6 6, .put 5 5, .put 4 4, .delete 2, .delete 6, .deleteMin,
+        .deleteMax, .rank 4, .equal])
+    (fun r => r.1.1.sz == 3) = true := by decide
+
+example : okAnd (run .bst cmpAsc eqInt
+      [.put 4 4, .put 2 2, .put 6 6, .put 1 1, .put 3 3, .put 5 5, .put 7 7, .delete 4, .delete 2, .select 2])
+    (fun r => r.1.1.sz == 5) = true := by decide
